@@ -1,5 +1,19 @@
 // K-CTOR (LFU part): constructor / builder contracts for TinyLFU, CountMinSketch and the doorkeeper (C05),
 // and the establishment of the invariants the Verus units assume (Bloom::inv, CountMinSketch::inv).
+// Non-blocking check: Kani's `assert!` assumes its condition afterwards, so the first failing conjunct of a contract
+// would hide every later one on the same path (and with it the verdicts of the other properties that harness serves).
+// `ck!` performs the check on a nondeterministically chosen side branch, so every conjunct is reported independently.
+macro_rules! ck {
+    ($c:expr, $m:literal) => {
+        if kani::any::<bool>() {
+            assert!($c, $m);
+        }
+    };
+    ($c:expr) => {
+        assert!($c)
+    };
+}
+
 use super::*;
 use crate::verif_hooks::ByteKeyHasher;
 
@@ -16,9 +30,9 @@ fn bloom_new_establishes_inv() {
     kani::assume(fp > 0.0 && fp < 1.0);
     let b = crate::lfu::tinylfu::bloom::Bloom::new(entries, fp);
     let (nbits, mask, shift, locs, exp) = b.verif_config();
-    assert!(nbits >= 512 && mask == nbits - 1 && (nbits & mask) == 0, "[C05.bloom] the bit set has a power-of-two number of bits (>= 512) and mask = bits - 1");
-    assert!(shift == 64 - exp && nbits == 1u64 << exp, "[C05.bloom] shift = 64 - log2(bits)");
-    assert!(shift >= 12 && shift < 64, "[C05.bloom] the hash split uses a shift in 12..64 (at most 2^52 bits)");
+    ck!(nbits >= 512 && mask == nbits - 1 && (nbits & mask) == 0, "[C05.bloom] the bit set has a power-of-two number of bits (>= 512) and mask = bits - 1");
+    ck!(shift == 64 - exp && nbits == 1u64 << exp, "[C05.bloom] shift = 64 - log2(bits)");
+    ck!(shift >= 12 && shift < 64, "[C05.bloom] the hash split uses a shift in 12..64 (at most 2^52 bits)");
     // the probe count is checked separately (bloom_new_probe_count) under an explicit, weak contract for `ln`
     let _ = locs;
     core::mem::forget(b);
@@ -39,10 +53,10 @@ fn tinylfu_builder_validates() {
     kani::assume(samples == 0 || bad_fp || size == 0);
     let r = TinyLFUBuilder::<u8, ByteKeyHasher>::with_hasher(ByteKeyHasher).set_size(size).set_samples(samples).set_false_positive_ratio(fp).finalize();
     match r {
-        Err(TinyLFUError::InvalidSamples(s)) => assert!(samples == 0 && s == 0, "[C05.ctor] InvalidSamples exactly for zero samples"),
-        Err(TinyLFUError::InvalidFalsePositiveRatio(_)) => assert!(samples != 0 && bad_fp, "[C05.ctor] InvalidFalsePositiveRatio exactly for ratios outside (0,1) or NaN"),
-        Err(TinyLFUError::InvalidCountMinWidth(w)) => assert!(samples != 0 && !bad_fp && size == 0 && w == 0, "[C05.ctor] InvalidCountMinWidth exactly for size 0"),
-        Ok(_) => assert!(false, "[C05.ctor] invalid arguments (zero samples, ratio outside (0,1) or NaN, size 0) are rejected"),
+        Err(TinyLFUError::InvalidSamples(s)) => ck!(samples == 0 && s == 0, "[C05.ctor] InvalidSamples exactly for zero samples"),
+        Err(TinyLFUError::InvalidFalsePositiveRatio(_)) => ck!(samples != 0 && bad_fp, "[C05.ctor] InvalidFalsePositiveRatio exactly for ratios outside (0,1) or NaN"),
+        Err(TinyLFUError::InvalidCountMinWidth(w)) => ck!(samples != 0 && !bad_fp && size == 0 && w == 0, "[C05.ctor] InvalidCountMinWidth exactly for size 0"),
+        Ok(_) => ck!(false, "[C05.ctor] invalid arguments (zero samples, ratio outside (0,1) or NaN, size 0) are rejected"),
     }
 }
 
@@ -57,15 +71,15 @@ fn tinylfu_clone_is_identical_then_independent() {
     let mut t: TinyLFU<u8, ByteKeyHasher> = TinyLFU::verif_small(kani::any(), 1, kani::any(), kani::any(), 1, samples, w, ByteKeyHasher);
     let pre = t.verif_abs();
     let mut c = t.clone();
-    assert!(c.verif_abs() == pre, "[C16.estimator] a cloned TinyLFU has the same window position, sample size, sketch counters and doorkeeper bits");
+    ck!(c.verif_abs() == pre, "[C16.estimator] a cloned TinyLFU has the same window position, sample size, sketch counters and doorkeeper bits");
     // the same access recorded on both yields the same state again; the other copy is not affected
     let h: u64 = kani::any();
     c.increment_hashed_key(h);
-    assert!(t.verif_abs() == pre, "[C16.independent] recording an access on the clone does not affect the original");
+    ck!(t.verif_abs() == pre, "[C16.independent] recording an access on the clone does not affect the original");
     t.increment_hashed_key(h);
-    assert!(t.verif_abs() == c.verif_abs(), "[C16.estimator] the same operation applied to both copies produces identical estimator states");
+    ck!(t.verif_abs() == c.verif_abs(), "[C16.estimator] the same operation applied to both copies produces identical estimator states");
     drop(c);
-    assert!(t.estimate_hashed_key(h) <= 16, "[C16.independent][C03.uaf] the original stays usable after the clone is dropped");
+    ck!(t.estimate_hashed_key(h) <= 16, "[C16.independent][C03.uaf] the original stays usable after the clone is dropped");
     core::mem::forget(t);
 }
 
@@ -90,8 +104,8 @@ fn bloom_new_probe_count() {
     kani::assume(fp > 0.0 && fp < 1.0);
     let b = crate::lfu::tinylfu::bloom::Bloom::new(entries, fp);
     let (_nbits, _mask, shift, locs, _exp) = b.verif_config();
-    assert!(locs >= 1, "[C05.bloom][C11.locs] every ratio in (0,1) gives the doorkeeper at least one probe position (otherwise it would claim to contain every key)");
-    assert!(locs < 2048, "[C05.bloom][C11.locs] ... and fewer than 2048 (the probe arithmetic h + i*l cannot overflow)");
-    assert!(shift >= 12, "[C05.bloom] at most 2^52 bits");
+    ck!(locs >= 1, "[C05.bloom][C11.locs] every ratio in (0,1) gives the doorkeeper at least one probe position (otherwise it would claim to contain every key)");
+    ck!(locs < 2048, "[C05.bloom][C11.locs] ... and fewer than 2048 (the probe arithmetic h + i*l cannot overflow)");
+    ck!(shift >= 12, "[C05.bloom] at most 2^52 bits");
     core::mem::forget(b);
 }
